@@ -1244,6 +1244,16 @@ func init() {
 		}
 		return nil
 	})
+	reg(pkgPrefix+"verifTraceAccesses", func(fr *frame, a []value) value {
+		if fr.i.trace != nil {
+			fr.i.trace.recAcc = fr.i.truth(a[0])
+		}
+		return nil
+	})
+	reg(pkgPrefix+"verifRaceCheck", func(fr *frame, a []value) value {
+		fr.i.raceCheck()
+		return nil
+	})
 	reg(pkgPrefix+"verifScheduleCheck", func(fr *frame, a []value) value {
 		fr.i.scheduleCheck(int(asInt64(a[0])), len(a) > 1 && asInt64(a[1]) != 0)
 		return nil
